@@ -64,7 +64,10 @@ SecondRun ==
         again.ok /\ again.dag = dag /\ again.ty = ty /\ again.aux = aux
      /\ WellTyped(dag, ty, FALSE)
      /\ \A i \in 1..Len(dag) : dag[i][1] = "witness" => HasType(aux[i], ty[i][2])
-H == (Len(visited) + hwc * 3 + Len(dag) * 7) % EmitMod
+\* (child indices weighted by position: sizes alone stay below a large modulus and never reach 0)
+RECURSIVE ShapeSum(_, _)
+ShapeSum(d, k) == IF k = 0 THEN 0 ELSE ShapeSum(d, k - 1) + k * (3 * d[k][2] + 5 * d[k][3])
+H == (Len(visited) + hwc * 3 + Len(dag) * 7 + ShapeSum(dag, Len(dag))) % EmitMod
 Emit == (round = 2 /\ phase = "done" /\ H = 0) =>
   PrintT(<<"CASE", ToJson([dag |-> orig.dag, ty |-> orig.ty, aux |-> orig.aux, out |-> orig.out,
                            pdag |-> dag, pty |-> ty, paux |-> aux, map |-> orig.p.map,
